@@ -941,6 +941,14 @@ package eventbus
 //@        (forall j int :: {acqat(m.events, j)} 0 <= j && j < len(acq(m.events)) - len(events) ==> !after(from, acqat(m.events, j))) &&
 //@        (forall k int :: {events[k]} 0 <= k && k < len(events) ==> events[k] == acqat(m.events, len(acq(m.events)) - len(events) + k) && after(from, events[k]))
 //@        && len(events) <= len(acq(m.events)) && cnt(yieldElem) == 0 && cnt(yieldErr) == 0
+// refinement: the snapshot is, in the vocabulary of the EventStoreStreamer.ReadStream interface contract, the
+// whole suffix of the abstract log after `from` (posOf/logAt of the log at the moment of the snapshot)
+//@   at unlock:MemoryStore.mu assert [C10.stream.pos.lo] {C10,C11} forall k int :: {m.events[k]} 0 <= k && k < len(m.events) - len(events) ==> !after(from, m.events[k])
+//@   at unlock:MemoryStore.mu assert [C10.stream.pos.hi] {C10,C11} forall k int :: {m.events[k]} len(m.events) - len(events) <= k && k < len(m.events) ==> after(from, m.events[k]) && m.events[k] == events[k - (len(m.events) - len(events))]
+//@   at unlock:MemoryStore.mu assert [C10.stream.pos.mark] {C10,C11} len(m.events) - len(events) < len(m.events) ==> strMark(offAt(log(m), len(m.events) - len(events)))
+//@   at unlock:MemoryStore.mu assert [C10.stream.pos] {C10,C11} posOf(log(m), from) == len(m.events) - len(events)
+//@   at unlock:MemoryStore.mu assert [C10.stream.refines] {C10,C11} len(events) == logLen(log(m)) - posOf(log(m), from) &&
+//@        (forall k int :: {events[k]} 0 <= k && k < len(events) ==> events[k] == logAt(log(m), posOf(log(m), from) + k) && events[k] != nil)
 //@   loop 2 invariant [idx2] -1 <= rangeindex__2 && rangeindex__2 < len(events)
 //@   loop 2 invariant [C10.stream.order] {C10,C11} cnt(yieldElem) == rangeindex__2 + 1 && cnt(yieldErr) == 0 && seqeq(events, loopentry(events)) && events == loopentry(events) &&
 //@        (forall j int :: {nth(yieldElem, j, 1)} 0 <= j && j < cnt(yieldElem) ==> nth(yieldElem, j, 1) == loopentry(events)[j])
@@ -1157,3 +1165,57 @@ package eventbus
 //@   props C09
 //@   requires bus != nil
 //@   ensures [C09.getstore] result == bus.store
+
+// ---------------------------------------------------------------- option constructors
+// Each returns its option literal (the literal's own contract says what the option does).
+//@ func Async
+//@   props C06
+//@   ensures [opt.value] result != nil
+//@ func Once
+//@   props C04
+//@   ensures [opt.value] result != nil
+//@ func Sequential
+//@   props C07
+//@   ensures [opt.value] result != nil
+//@ func WithAfterPublish
+//@   props C08
+//@   ensures [opt.value] result != nil
+//@ func WithAfterPublishContext
+//@   props C08
+//@   ensures [opt.value] result != nil
+//@ func WithBeforePublish
+//@   props C08
+//@   ensures [opt.value] result != nil
+//@ func WithBeforePublishContext
+//@   props C08 C09
+//@   ensures [opt.value] result != nil
+//@ func WithFilter
+//@   props C01
+//@   ensures [opt.value] result != nil
+//@ func WithObservability
+//@   props C20
+//@   ensures [opt.value] result != nil
+//@ func WithPanicHandler
+//@   props C05
+//@   ensures [opt.value] result != nil
+//@ func WithPersistenceErrorHandler
+//@   props C13
+//@   ensures [opt.value] result != nil
+//@ func WithPersistenceTimeout
+//@   props C13
+//@   ensures [opt.value] result != nil
+//@ func WithReplayBatchSize
+//@   props C11
+//@   ensures [opt.value] result != nil
+//@ func WithStore
+//@   props C09
+//@   ensures [opt.value] result != nil
+//@ func WithSubscriptionStore
+//@   props C12
+//@   ensures [opt.value] result != nil
+//@ func WithUpcast
+//@   props C16
+//@   ensures [opt.value] result != nil
+//@ func WithUpcastErrorHandler
+//@   props C17
+//@   ensures [opt.value] result != nil
